@@ -480,6 +480,8 @@ class SeqCheck:
                     viol.append(i)
             if proj(oi) != proj(om) or any(t[i].startswith("fail") for t in ties):
                 disagree.append(i)
+            elif getattr(m, "MODEL_MUST_NOT", None) and m.MODEL_MUST_NOT in om["extra"]:
+                disagree.append(i)       # the model's own final world contradicts what the theorems say about it
             if verd_m[i].startswith("fail") and not verd_i[i].startswith("fail"):
                 model_viol.append(i)
         status = 0
